@@ -528,6 +528,7 @@ class EZSP:
 
     async def write_config(self, config: dict) -> None:
         """Initialize EmberZNet Stack."""
+        user_supplied = set(config)
         config = self._protocol.SCHEMAS[conf.CONF_EZSP_CONFIG](config)
 
         # Not all config will be present in every EZSP version so only use valid keys
@@ -548,6 +549,11 @@ class EZSP:
         for name, value in config.items():
             if value is None:
                 ezsp_config.pop(name, None)
+                continue
+
+            if name not in user_supplied and name in ezsp_config:
+                # A schema default is not a user override: keep the grow-only flag
+                ezsp_config[name] = dataclasses.replace(ezsp_config[name], value=value)
                 continue
 
             ezsp_config[name] = RuntimeConfig(
